@@ -179,6 +179,14 @@ def _work_short(job):
         return idx, "error", "z3", 0.0, "%s: %s" % (type(e).__name__, e)
 
 
+def _retry_work(job):
+    smt2, ms = job
+    try:
+        return _z3_check(smt2, ms)
+    except Exception as e:  # noqa
+        return ("unknown", "z3", 0.0, "retry failed: %s" % e)
+
+
 def _pmap(fn, jobs, parallel):
     if not jobs:
         return []
